@@ -595,9 +595,10 @@ class Ref(object):
     """Paint order of one page.  boxes: records in preorder (impl_c17.render_display).
     overflow_ctx: WeasyPrint lets overflow != visible form a stacking context (kept, reported as a deviation)."""
 
-    def __init__(self, boxes, overflow_ctx=True):
+    def __init__(self, boxes, overflow_ctx=True, quirks=()):
         self.b = boxes
         self.overflow_ctx = overflow_ctx
+        self.quirks = set(quirks)       # known deviations of WeasyPrint, switched on only to classify a mismatch
         self.out = []
 
     # -- classification (CSS 2.1 9.9.1, css-color-3 opacity, css-transforms-1)
@@ -606,7 +607,9 @@ class Ref(object):
 
     def z(self, n):
         r = self.b[n]
-        if r['z'] is None or not (self.positioned(n) or r['git']):
+        if r['z'] is None:
+            return 0
+        if not (self.positioned(n) or r['git']) and 'z-index-on-non-positioned' not in self.quirks:
             return 0                  # z-index applies to positioned boxes (and grid items) only
         return r['z']
 
@@ -707,16 +710,19 @@ class Ref(object):
             self.out.append((n, 'close'))
             return
         cls = r['cls']
-        if cls not in ('InlineBox', 'PageBox'):
+        lost = 'table-part-context-background-lost' in self.quirks and cls in ('TableRowBox', 'TableRowGroupBox')
+        if cls not in ('InlineBox', 'PageBox') and not lost:
             self.emit(n, 'bg')
-            self.emit(n, 'border')
-        if cls == 'TableRowBox':
+            self.emit(n, 'border' if cls != 'TableCellBox' else 'cell-border')
+        if lost:
+            pass
+        elif cls == 'TableRowBox':
             cells = [c for c in self.kids(n) if self.inflow(c)]
             for c in cells:
                 self.emit(c, 'bg')
             for c in cells:
                 self.emit(c, 'border')
-        if cls == 'TableRowGroupBox':
+        elif cls == 'TableRowGroupBox':
             rows = [x for x in self.kids(n) if self.inflow(x)]
             for x in rows:
                 self.emit(x, 'bg')
@@ -781,7 +787,16 @@ def colour_index(rgb):
     return v[0] + 16 * v[1] + 256 * v[2] - 1
 
 
-def visible_tokens(boxes, order, canvas):
+def in_collapsed_table(boxes, n):
+    p = boxes[n]['parent']
+    while p is not None:
+        if boxes[p]['cls'] in ('TableBox', 'InlineTableBox'):
+            return bool(boxes[p].get('collapse'))
+        p = boxes[p]['parent']
+    return False
+
+
+def visible_tokens(boxes, order, canvas, quirks=()):
     """order: [(box, layer)] from a painter -> [(box, role, colour index)] of the paints that put ink in the
     display list: backgrounds with a colour, borders with a visible side, non-blank text."""
     toks = []
@@ -795,7 +810,14 @@ def visible_tokens(boxes, order, canvas):
         if layer == 'bg':
             if r['bgcolor'] and r['bgcolor'][3] > 0 and not r.get('bg_to_canvas'):
                 toks.append((n, 'bg', colour_index(r['bgcolor'])))
-        elif layer == 'border':
+        elif layer == 'cell-border' and in_collapsed_table(boxes, n):
+            # a cell painted as a context: in the collapsing model its borders belong to the table's border phase
+            if 'collapsed-cell-context-border' in quirks:
+                sides = [s for s in 'trbl' if (r['b' + s] or 0) > 0 and r['bc' + s] and r['bc' + s][3] > 0]
+                if sides:
+                    cols = sorted(set(colour_index(r['bc' + s]) for s in sides), key=lambda v: (v is None, v))
+                    toks.append((n, 'border', cols[0] if len(cols) == 1 else tuple(cols)))
+        elif layer in ('border', 'cell-border'):
             sides = [s for s in 'trbl' if (r['b' + s] or 0) > 0 and r['bs' + s] not in ('none', 'hidden')
                      and r['bc' + s] and r['bc' + s][3] > 0]
             if sides:
@@ -807,3 +829,417 @@ def visible_tokens(boxes, order, canvas):
             if r['cls'] == 'TextBox' and r.get('text', '').strip():
                 toks.append((n, 'text', colour_index(r['color'])))
     return toks
+
+
+# =====================================================================================================
+#  Judging one rendered document: order (monitor A) and geometry (monitor B)
+# =====================================================================================================
+
+import math
+
+TOL = 2e-3        # CSS px; pydyf prints 6 significant decimals
+
+
+def transform_of(r):
+    """CSS transform of a box record as a function on points (css px), or None.  transform-origin is relative to
+    the border box; 'transform: f1 f2' applies f2 first (css-transforms-1 section 3)."""
+    if not r['transform'] or r['cls'] == 'InlineBox':
+        return None
+    bx, by = r['x'] + r['ml'], r['y'] + r['mt']
+    bw = r['bl'] + r['pl'] + r['w'] + r['pr'] + r['br']
+    bh = r['bt'] + r['pt'] + r['h'] + r['pb'] + r['bb']
+    def length(v, ref):
+        if isinstance(v, list):
+            return v[0] * ref / 100 if v[1] == '%' else v[0]
+        return v
+    ox = bx + length(r['torigin'][0], bw)
+    oy = by + length(r['torigin'][1], bh)
+    fns = []
+    for name, args in r['transform']:
+        if name == 'translate':
+            tx, ty = length(args[0], bw), length(args[1], bh)
+            fns.append((1, 0, 0, 1, tx, ty))
+        elif name == 'rotate':
+            c, s = math.cos(args), math.sin(args)
+            fns.append((c, s, -s, c, 0, 0))
+        elif name == 'scale':
+            fns.append((args[0], 0, 0, args[1], 0, 0))
+        elif name == 'skew':
+            fns.append((1, math.tan(args[1]), math.tan(args[0]), 1, 0, 0))
+        elif name == 'matrix':
+            fns.append(tuple(args))
+        else:
+            return 'unsupported'
+    def f(p):
+        x, y = p[0] - ox, p[1] - oy
+        for a, b, c, d, e, g in reversed(fns):
+            x, y = a * x + c * y + e, b * x + d * y + g
+        return (x + ox, y + oy)
+    return f
+
+
+class PageGeometry(object):
+    def __init__(self, boxes, mediabox, scale=0.75):
+        self.b = boxes
+        self.H = mediabox[3]
+        self.scale = scale
+        self._chain = {}
+
+    def to_css(self, p):
+        return (p[0] / self.scale, (self.H - p[1]) / self.scale)
+
+    def ancestors(self, n):
+        """proper ancestors, nearest first"""
+        res = []
+        p = self.b[n]['parent']
+        while p is not None:
+            res.append(p)
+            p = self.b[p]['parent']
+        return res
+
+    def map_point(self, n, p):
+        """a point of box n's layout coordinates -> page css px after the transforms of n and its ancestors"""
+        for a in [n] + self.ancestors(n):
+            f = transform_of(self.b[a])
+            if f == 'unsupported':
+                return None
+            if f is not None:
+                p = f(p)
+        return p
+
+    def rect_poly(self, n, rect, via=None):
+        x, y, w, h = rect
+        pts = [(x, y), (x + w, y), (x + w, y + h), (x, y + h)]
+        return [self.map_point(via if via is not None else n, p) for p in pts]
+
+    def opacity(self, n):
+        o = 1.0
+        for a in [n] + self.ancestors(n):
+            o *= self.b[a]['opacity']
+        return o
+
+    def box_rect(self, n, which):
+        r = self.b[n]
+        bx, by = r['x'] + r['ml'], r['y'] + r['mt']
+        bw = r['bl'] + r['pl'] + r['w'] + r['pr'] + r['br']
+        bh = r['bt'] + r['pt'] + r['h'] + r['pb'] + r['bb']
+        if which == 'border-box':
+            return (bx, by, bw, bh)
+        if which == 'padding-box':
+            return (bx + r['bl'], by + r['bt'], bw - r['bl'] - r['br'], bh - r['bt'] - r['bb'])
+        return (bx + r['bl'] + r['pl'], by + r['bt'] + r['pt'], r['w'], r['h'])
+
+
+def same_poly(p, q, tol=TOL):
+    """same point set (any starting corner / direction); degenerate duplicates allowed"""
+    if p is None or q is None or len(p) != len(q):
+        return False
+    sp = sorted((round(x / tol / 4), round(y / tol / 4)) for x, y in p)
+    sq = sorted((round(x / tol / 4), round(y / tol / 4)) for x, y in q)
+    if sp == sq:
+        return True
+    return all(min(abs(a[0] - b[0]) + abs(a[1] - b[1]) for b in q) < 4 * tol for a in p) and \
+        all(min(abs(a[0] - b[0]) + abs(a[1] - b[1]) for b in p) < 4 * tol for a in q)
+
+
+def point_in_poly(pt, polys, evenodd):
+    """winding / even-odd test against a list of closed polygons"""
+    x, y = pt
+    wn = 0
+    crossings = 0
+    for poly in polys:
+        n = len(poly)
+        for i in range(n):
+            x1, y1 = poly[i]
+            x2, y2 = poly[(i + 1) % n]
+            if (y1 <= y) != (y2 <= y):
+                t = (y - y1) / (y2 - y1)
+                xi = x1 + t * (x2 - x1)
+                if xi > x:
+                    crossings += 1
+                    wn += 1 if y2 > y1 else -1
+    return (crossings % 2 == 1) if evenodd else (wn != 0)
+
+
+def match_tokens(tokens, leaves):
+    """Walk the display list along the expected tokens.  Returns (pairs, error): pairs = [(token, [items])]."""
+    i = 0
+    pairs = []
+    for tok in tokens:
+        n, role, col = tok
+        if role == 'collapsed':
+            j = i
+            while j < len(leaves) and leaves[j]['kind'] == 'stroke':
+                j += 1
+            pairs.append((tok, leaves[i:j]))
+            i = j
+            continue
+        if i >= len(leaves):
+            return pairs, ('missing', tok, None, i)
+        it = leaves[i]
+        want_kind = 'text' if role == 'text' else 'fill'
+        idx = colour_index(it['rgb']) if isinstance(it.get('rgb'), tuple) and len(it['rgb']) == 3 else None
+        cols = col if isinstance(col, tuple) else (col,)
+        if it['kind'] != want_kind or idx not in cols:
+            return pairs, ('unexpected', tok, (it['kind'], idx), i)
+        j = i + 1
+        if role == 'border':
+            while j < len(leaves) and leaves[j]['kind'] == 'fill' and colour_index(leaves[j]['rgb']) in cols:
+                j += 1
+        pairs.append((tok, leaves[i:j]))
+        i = j
+    if i < len(leaves):
+        it = leaves[i]
+        idx = colour_index(it['rgb']) if isinstance(it.get('rgb'), tuple) and len(it['rgb']) == 3 else None
+        return pairs, ('extra', None, (it['kind'], idx), i)
+    return pairs, None
+
+
+def css_containing_chain_has(boxes, n, a):
+    """Is box a on the containing-block chain of n (CSS 2.1 10.1)?  a is a tree ancestor of n."""
+    cur = n
+    while cur is not None and cur != a:
+        pos = boxes[cur]['position']
+        p = boxes[cur]['parent']
+        if pos == 'fixed':
+            return False                       # containing block: the page area
+        if pos == 'absolute':
+            # nearest positioned ancestor; if it is above a (or absent), a is skipped
+            q = p
+            while q is not None and boxes[q]['position'] == 'static' and not boxes[q]['transform']:
+                if q == a:
+                    # a itself is not positioned: the chain jumps over it unless a is the box found
+                    pass
+                q = boxes[q]['parent']
+            # q is the containing block's box (or None = initial containing block)
+            if q is None:
+                return False
+            # is q at or below a?
+            t = q
+            below = False
+            while t is not None:
+                if t == a:
+                    below = True
+                    break
+                t = boxes[t]['parent']
+            if not below:
+                return False
+            cur = q
+            continue
+        cur = p
+    return cur == a
+
+
+def judge_geometry(boxes, pairs, geo, doc, fonts_cache):
+    """Monitor B on the matched (token, items) pairs.  Returns [(clause, box, detail)]."""
+    bad = []
+    for (n, role, col), items in pairs:
+        r = boxes[n]
+        if role == 'collapsed' or not items:
+            continue
+        if geo.map_point(n, (0, 0)) is None:
+            continue
+        # opacity of the whole subtree
+        want_alpha = geo.opacity(n)
+        for it in items:
+            got = it['alpha'] * it['galpha']
+            if abs(got - want_alpha) > 1e-4:
+                bad.append(('opacity', n, 'effective alpha %.4f, product of opacities %.4f' % (got, want_alpha)))
+                break
+        # overflow clips of ancestors
+        for a in geo.ancestors(n):
+            ra = boxes[a]
+            if ra['overflow'] == 'visible' or ra['cls'] == 'PageBox':
+                continue
+            want = geo.rect_poly(a, geo.box_rect(a, 'padding-box'))
+            if any(v is None for v in want):
+                continue
+            has = all(any(len(cl[0]) == 1 and same_poly([geo.to_css(p) for p in cl[0][0]], want) for cl in it['clips'])
+                      for it in items)
+            on_chain = css_containing_chain_has(boxes, n, a)
+            if on_chain and not has:
+                bad.append(('overflow-clip-missing', n, 'ancestor %d clips its contents, no such clip on the item' % a))
+            if not on_chain and has:
+                bad.append(('overflow-clips-escaping-abspos', n,
+                            'ancestor %d is not on the containing block chain but its clip is applied' % a))
+        if role == 'bg':
+            it = items[0]
+            if r['cls'] in ('TableRowBox', 'TableRowGroupBox', 'PageBox') or r.get('is_canvas'):
+                continue
+            which = r['bgclip'][-1] if r['bgclip'] else 'border-box'
+            want = geo.rect_poly(n, geo.box_rect(n, which))
+            got = [[geo.to_css(p) for p in sp] for sp in it['path']]
+            if len(got) != 1 or not same_poly(got[0], want):
+                bad.append(('background-rect', n, 'fill %s, %s prescribes %s' % (
+                    [[(round(x, 3), round(y, 3)) for x, y in sp] for sp in got][:2], which,
+                    [(round(x, 3), round(y, 3)) for x, y in want])))
+            if any(any(c for c in corner) for corner in r['radii']) is False:
+                # zero radii: the clip of the painting box is the same rectangle
+                if not any(len(cl[0]) == 1 and same_poly([geo.to_css(p) for p in cl[0][0]], want) for cl in it['clips']):
+                    bad.append(('background-clip-box', n, 'no clip equal to the %s' % which))
+        elif role == 'border':
+            outer = geo.rect_poly(n, geo.box_rect(n, 'border-box'))
+            inner = geo.rect_poly(n, geo.box_rect(n, 'padding-box'))
+            sides = [s for s in 'trbl' if (r['b' + s] or 0) > 0 and r['bs' + s] not in ('none', 'hidden')
+                     and r['bc' + s] and r['bc' + s][3] > 0]
+            uniform = all((r['b' + s] or 0) > 0 for s in 'trbl') and len(sides) == 4
+            want_items = 1 if uniform else len(sides)
+            if len(items) != want_items:
+                bad.append(('border-fills', n, '%d fills for sides %s' % (len(items), ''.join(sides))))
+            for it in items:
+                got = [[geo.to_css(p) for p in sp] for sp in it['path']]
+                if not (len(got) == 2 and it['evenodd'] and
+                        ((same_poly(got[0], inner) and same_poly(got[1], outer)) or
+                         (same_poly(got[1], inner) and same_poly(got[0], outer)))):
+                    bad.append(('border-area', n, 'fill is not border box minus padding box: %s' % (
+                        [[(round(x, 3), round(y, 3)) for x, y in sp] for sp in got][:3],)))
+                    break
+            if not uniform and len(items) == len(sides):
+                # one fill per side, each clipped to its side: the middle of the side's strip is inside the
+                # innermost clip, the middle of the opposite strip is not
+                bx, by, bw, bh = geo.box_rect(n, 'border-box')
+                mid = {'t': (bx + bw / 2, by + r['bt'] / 2), 'b': (bx + bw / 2, by + bh - r['bb'] / 2),
+                       'l': (bx + r['bl'] / 2, by + bh / 2), 'r': (bx + bw - r['br'] / 2, by + bh / 2)}
+                opp = {'t': 'b', 'b': 't', 'l': 'r', 'r': 'l'}
+                order = [s for s in 'blrt' if s in sides]       # draw_border paints bottom, left, right, top
+                for s, it in zip(order, items):
+                    if not it['clips']:
+                        bad.append(('border-side-clip', n, 'side %s has no clip' % s))
+                        continue
+                    polys, eo = it['clips'][-1]
+                    polys = [[geo.to_css(p) for p in sp] for sp in polys]
+                    pm = geo.map_point(n, mid[s])
+                    po = geo.map_point(n, (mid[opp[s]][0], mid[opp[s]][1]))
+                    inside = point_in_poly(pm, polys, eo)
+                    far_w = (r['b' + opp[s]] or 0) > 0
+                    if not inside or (far_w and point_in_poly(po, polys, eo)):
+                        bad.append(('border-side-clip', n, 'side %s clip %s' % (s, 'misses its strip' if not inside
+                                                                                else 'covers the opposite strip')))
+        elif role == 'text':
+            it = items[0]
+            tmc = it['tm']
+            o = geo.to_css((tmc[4], tmc[5]))
+            want = geo.map_point(n, (r['x'], r['y'] + r['baseline']))
+            if not it['origin_known']:
+                bad.append(('text-origin', n, 'text shown without its own text matrix'))
+            elif abs(o[0] - want[0]) > TOL or abs(o[1] - want[1]) > TOL:
+                bad.append(('text-origin', n, 'shown at (%.3f, %.3f), baseline origin (%.3f, %.3f)' % (o + want)))
+            # unit vectors of text space
+            ux = geo.to_css((tmc[0] + tmc[4], tmc[1] + tmc[5]))
+            uy = geo.to_css((tmc[2] + tmc[4], tmc[3] + tmc[5]))
+            wx = geo.map_point(n, (r['x'] + 1, r['y'] + r['baseline']))
+            wy = geo.map_point(n, (r['x'], r['y'] + r['baseline'] - 1))      # text space y points up
+            if max(abs(ux[0] - wx[0]), abs(ux[1] - wx[1]), abs(uy[0] - wy[0]), abs(uy[1] - wy[1])) > TOL:
+                bad.append(('text-matrix', n, 'unit vectors (%s, %s), expected (%s, %s)' % (ux, uy, wx, wy)))
+            if abs(it['size'] - r['font_size']) > 1e-6:
+                bad.append(('font-size', n, 'Tf %s, computed %s' % (it['size'], r['font_size'])))
+            if it['fontref'] not in fonts_cache:
+                fonts_cache[it['fontref']] = parse_tounicode(doc, it['fontref']) if it['fontref'] is not None else None
+            table = fonts_cache[it['fontref']]
+            if table is None:
+                bad.append(('tounicode', n, 'font %s has no ToUnicode CMap' % it['font']))
+            else:
+                s = ''.join(table.get(g, '�') for g in it['glyphs'])
+                if s.rstrip(' ') != r['text'].rstrip(' '):
+                    bad.append(('glyphs-to-text', n, 'glyphs map to %r, text is %r' % (s, r['text'])))
+    return bad
+
+
+def prepare_tokens(page_rec, order, quirks=()):
+    """canvas/page background first (draw_page), then the tokens of the order"""
+    boxes = page_rec['boxes']
+    # background propagation (CSS 2.1 14.2): root element, else its body child
+    root = boxes[0]['kids'][0] if boxes[0]['kids'] else None
+    canvas = None
+    for r in boxes:
+        r.pop('bg_to_canvas', None)
+    if root is not None:
+        cand = root
+        if boxes[root]['tag'] == 'html' and not (boxes[root]['bgcolor'] and boxes[root]['bgcolor'][3] > 0 and
+                                                  boxes[root]['visible']):
+            for k in boxes[root]['kids']:
+                if boxes[k]['tag'] == 'body':
+                    cand = k
+                    break
+        rc = boxes[cand]
+        if rc['bgcolor'] and rc['bgcolor'][3] > 0 and rc['visible']:
+            canvas = cand
+            rc['bg_to_canvas'] = True
+    toks = []
+    pg = boxes[0]
+    if pg['bgcolor'] and pg['bgcolor'][3] > 0:
+        toks.append((0, 'bg', colour_index(pg['bgcolor'])))
+    if canvas is not None:
+        boxes[canvas]['is_canvas'] = True
+        toks.append((canvas, 'bg', colour_index(boxes[canvas]['bgcolor'])))
+    toks_rest = visible_tokens(boxes, order, canvas, quirks)
+    return toks, toks_rest, canvas
+
+
+QUIRKS = ('z-index-on-non-positioned', 'table-part-context-background-lost', 'collapsed-cell-context-border')
+
+
+def describe(boxes, n):
+    r = boxes[n]
+    return '%s#%s(box %d)' % (r['cls'], r.get('eid'), n)
+
+
+def judge_doc(case):
+    """Runs in a worker: render (impl_c17.render_display), decode the PDF, judge order and geometry.
+    Returns dict(pages=[dict(bad=[(clause, box, detail)], tokens, items, ...)], problems=[...])."""
+    import impl_c17
+    r = impl_c17.render_display(case)
+    dls, doc = display_lists(r['pdf'].encode('latin-1'))
+    res = dict(pages=[], problems=[])
+    if len(dls) != len(r['pages']):
+        res['problems'].append('page count: %d in the PDF, %d laid out' % (len(dls), len(r['pages'])))
+        return res
+    fonts_cache = {}
+    for pg, dl in zip(r['pages'], dls):
+        boxes = pg['boxes']
+        bad = []
+        for p in dl['problems']:
+            bad.append(('pdf-structure', 0, p))
+        order = Ref(boxes).page()
+        head, rest, canvas = prepare_tokens(pg, order)
+        tokens = head + rest
+        leaves = flatten_items(dl['items'])
+        pairs, err = match_tokens(tokens, leaves)
+        if err:
+            kind, tok, got, at = err
+            ctx_toks = [(describe(boxes, t[0]), t[1]) for t, _ in pairs[-3:]]
+            detail = '%s at item %d: expected %s, display list has %s; after %s' % (
+                kind, at, (describe(boxes, tok[0]), tok[1], tok[2]) if tok else None, got, ctx_toks)
+            # classification: which known deviations of WeasyPrint, switched on in the reference, explain it?
+            explained = None
+            import itertools
+            for k in range(1, len(QUIRKS) + 1):
+                for qs in itertools.combinations(QUIRKS, k):
+                    o2 = Ref(boxes, quirks=qs).page()
+                    h2, r2, _ = prepare_tokens(pg, o2, qs)
+                    p2, e2 = match_tokens(h2 + r2, leaves)
+                    if e2 is None:
+                        explained = qs
+                        pairs = p2            # geometry is judged on the explained matching
+                        break
+                if explained:
+                    break
+            bad.append(('paint-order' if not explained else 'paint-order:' + '+'.join(explained),
+                        tok[0] if tok else 0, detail))
+        geo = PageGeometry(boxes, dl['mediabox'])
+        bad.extend(judge_geometry(boxes, pairs, geo, doc, fonts_cache))
+        observed = []
+        for it in leaves:
+            idx = colour_index(it['rgb']) if isinstance(it.get('rgb'), tuple) and len(it['rgb']) == 3 else None
+            observed.append([it['kind'], idx])
+        res['pages'].append(dict(
+            bad=[(c, n, d, describe(boxes, n)) for c, n, d in bad], ntokens=len(tokens), nitems=len(leaves),
+            nodes=[[{k: b[k] for k in ('kind', 'pos', 'flt', 'z', 'opa', 'trf', 'tm', 'ovf', 'clp', 'git', 'col',
+                                       'hid', 'rcl', 'bits', 'cls')}, b['kids']] for b in boxes],
+            out=pg['out'], identity=pg['identity'], observed=observed,
+            paints=[[n, role, col if not isinstance(col, tuple) else list(col)] for n, role, col in tokens],
+            vis=[[bool(b['visible']),
+                  (colour_index(b['bgcolor']) if b['bgcolor'] and b['bgcolor'][3] > 0 and not b.get('bg_to_canvas') else None),
+                  None, None] for b in boxes],
+            head=len(head)))
+    return res
